@@ -94,6 +94,7 @@ theorem step_log (s : State) (i : Input) :
       | exact ⟨[], by simp, by simp⟩
   | responseDone f => exact ⟨[], by simp [step, onResponseDone], by simp⟩
   | responderWrites sid response => exact ⟨[], by simp [step], by simp⟩
+  | clogged => exact ⟨[], by simp [step], by simp⟩
 
 /-- Only the completion of a request future with a response adds a `ResponseReceived`. -/
 theorem resp_step (s : State) (i : Input) (p : Peer) (r : Rid) (pl : Payload)
@@ -665,6 +666,9 @@ theorem sub_step (s : State) (i : Input) (h : Sub s) (ha : Allowed s i) : Sub (s
     exact h.congr (fun _ x => x) (fun _ => Nat.le_refl _) rfl rfl (fun _ x => x) (fun _ => Nat.le_refl _)
       (fun _ x => x) (fun _ => Nat.le_refl _) (fun _ x => x) (fun p r pl hm => Or.inl hm)
       (fun x hx => List.mem_append_left _ hx)
+  | clogged =>
+    exact h.congr (fun _ x => x) (fun _ => Nat.le_refl _) rfl rfl (fun _ x => x) (fun _ => Nat.le_refl _)
+      (fun _ x => x) (fun _ => Nat.le_refl _) (fun _ x => x) (fun p r pl hm => Or.inl hm) (fun _ x => x)
 
 theorem reach_sub (m : Option Nat) (s : State) (h : Reach m s) : Sub s := by
   induction h with
